@@ -218,6 +218,39 @@ var c13APIs = []c13API{
 	}},
 }
 
+// c13ReloadAPIs load a file whose directive runs the goal only while cgate/0 holds; after the cancelled load the
+// follow-up calls drop the gate, load the same file again on the same interpreter and ask for what it defines: a file
+// whose load was interrupted must not count as loaded (family "reload").
+var c13ReloadAPIs = []c13API{
+	{Name: "reload_exec_consult", API: "exec", D: 1, build: func(g string) (string, map[string]string) {
+		return ":- consult(cfile).", map[string]string{"cfile.pl": "cf_a(1).\n:- (cgate -> " + g + " ; assertz(cf_ran(1))).\ncf_done(2).\n"}
+	}},
+	{Name: "reload_exec_consult_init", API: "exec", D: 1, build: func(g string) (string, map[string]string) {
+		return ":- consult(cfile).", map[string]string{"cfile.pl": ":- initialization((cgate -> " + g + " ; assertz(cf_ran(1)))).\ncf_done(2).\n"}
+	}},
+	{Name: "reload_exec_ensure_loaded", API: "exec", D: 1, build: func(g string) (string, map[string]string) {
+		return ":- ensure_loaded(cfile).", map[string]string{"cfile.pl": ":- (cgate -> " + g + " ; assertz(cf_ran(1))).\ncf_done(2).\n"}
+	}},
+	{Name: "reload_query_consult", API: "query", D: 1, build: func(g string) (string, map[string]string) {
+		return "consult(cfile).", map[string]string{"cfile.pl": ":- (cgate -> " + g + " ; assertz(cf_ran(1))).\ncf_done(2).\n"}
+	}},
+	{Name: "reload_solution_list", API: "solution", D: 1, build: func(g string) (string, map[string]string) {
+		return "[cfile].", map[string]string{"cfile.pl": "cf_a(1).\n:- (cgate -> " + g + " ; assertz(cf_ran(1))).\ncf_done(2).\n"}
+	}},
+}
+
+const c13ReloadSetup = ":- dynamic(cgate/0).\n:- dynamic(cf_ran/1).\ncgate.\n"
+
+var c13ReloadFollow = []proto.Step{
+	{Exec: ":- retractall(cgate)."},
+	{Query: "consult(cfile), cf_ran(X), cf_done(Y)."},
+}
+
+var c13ReloadExpect = [][]map[string]string{
+	nil,
+	{{"X": "1", "Y": "2"}},
+}
+
 // follow-up calls and their known answers
 var c13Follow = []proto.Step{
 	{Query: "X = f(Y), Y = 1."},
@@ -249,6 +282,7 @@ type c13Meta struct {
 	Multi    bool                `json:"multi,omitempty"`
 	Expect   []map[string]string `json:"expect,omitempty"`
 	Family   string              `json:"family"`
+	Reload   bool                `json:"reload,omitempty"`
 }
 
 func c13Grid() (small, logs []int64) {
@@ -288,6 +322,11 @@ func (b *c13Builder) add(family string, core c13Core, ws []c13Wrapper, api c13AP
 	text, files := api.build(goal)
 	pl := proto.CancelPayload{API: api.API, Setup: []string{c13Program}, Text: text, Mode: mode, N: n, Ctx: ctxKind,
 		Limit: B + 100000, Follow: c13Follow, Seed: r.Uint64()}
+	reload := strings.HasPrefix(api.Name, "reload_")
+	if reload {
+		pl.Setup = append(pl.Setup, c13ReloadSetup)
+		pl.Follow = append(append([]proto.Step{}, c13Follow...), c13ReloadFollow...)
+	}
 	switch r.Intn(4) {
 	case 0:
 		pl.Gosched = 5
@@ -314,7 +353,7 @@ func (b *c13Builder) add(family string, core c13Core, ws []c13Wrapper, api c13AP
 	}
 	b.seen[key] = true
 	meta, _ := json.Marshal(&c13Meta{Core: core.Name, Wrappers: names, APIName: api.Name, Goal: goal, D: d, B: B,
-		Finite: core.Finite, Multi: core.Multi, Expect: core.Expect, Family: family})
+		Finite: core.Finite, Multi: core.Multi, Expect: core.Expect, Family: family, Reload: reload})
 	b.items = append(b.items, &Item{Cases: []*proto.Case{c}, Meta: meta,
 		Note: fmt.Sprintf("%s via %s, %s at %d (%s)", goal, api.Name, mode, n, ctxKind)})
 }
@@ -503,6 +542,25 @@ func (c *c13) build(cx *Ctx) []*Item {
 					b.add("finite", core, nil, byName(api), "hook", n, c13CtxKind(r), r)
 				}
 				b.add("finite", core, nil, byName(api), "never", 0, "cancel", r)
+			}
+		}
+	}
+	// 6b. a load that was cancelled is loaded again afterwards on the same interpreter
+	{
+		r := cx.Rng("c13/reload")
+		for _, api := range c13ReloadAPIs {
+			for i, n := 0, pick(6, 60); i < n; i++ {
+				core := c13Infinite[r.Intn(len(c13Infinite))]
+				var ws []c13Wrapper
+				if r.Intn(2) == 0 {
+					ws = []c13Wrapper{c13Wrappers[r.Intn(len(c13Wrappers))]}
+				}
+				for _, inst := range c13Instants(r, pick(3, 8), core.MaxN) {
+					b.add("reload", core, ws, api, "hook", inst, c13CtxKind(r), r)
+				}
+				if i%3 == 0 {
+					b.add("reload", core, ws, api, "before", 0, []string{"cancel", "deadline_past", "child"}[r.Intn(3)], r)
+				}
 			}
 		}
 	}
@@ -731,7 +789,12 @@ func c13SameAnswers(a, b []map[string]string) bool {
 }
 
 // c13CheckFollow compares the follow-up calls with their known answers.
-func c13CheckFollow(fs []proto.StepResult) string {
+func c13CheckFollow(fs []proto.StepResult, reload bool) string {
+	c13Follow, c13FollowExpect := c13Follow, c13FollowExpect
+	if reload {
+		c13Follow = append(append([]proto.Step{}, c13Follow...), c13ReloadFollow...)
+		c13FollowExpect = append(append([][]map[string]string{}, c13FollowExpect...), c13ReloadExpect...)
+	}
 	if len(fs) != len(c13Follow) {
 		return fmt.Sprintf("%d follow-up results for %d calls", len(fs), len(c13Follow))
 	}
@@ -858,7 +921,7 @@ func (c *c13) Judge(cx *Ctx, it *Item, outs []*run.Outcome) Verdict {
 	if !o.Res.Hooks {
 		// no logical clock: only "looks fine" or "cannot tell"
 		v.Extra["without_hooks"] = 1
-		if r.Returned && (r.ErrIsCtx || !r.Cancelled || m.Finite) && c13CheckFollow(r.Follow) == "" {
+		if r.Returned && (r.ErrIsCtx || !r.Cancelled || m.Finite) && c13CheckFollow(r.Follow, m.Reload) == "" {
 			return v
 		}
 		return inconclusive("worker built without the verif hooks: observed error " + errText)
@@ -898,7 +961,7 @@ func (c *c13) Judge(cx *Ctx, it *Item, outs []*run.Outcome) Verdict {
 		return inconclusive("timer smoke case returned " + errText)
 	}
 
-	follow := c13CheckFollow(r.Follow)
+	follow := c13CheckFollow(r.Follow, m.Reload)
 
 	if !r.Cancelled {
 		// the call returned before the instant
